@@ -2,7 +2,7 @@
    ONLY statements: each theorem is closed by `exact` of a lemma proved elsewhere and followed by Print Assumptions. *)
 From Coq Require Import ZArith NArith List Bool Lia Permutation SpecFloat.
 Import ListNotations.
-Require Import Base Float Builtins Eq Complex Strings.
+Require Import Base Float Builtins Eq Strings Interp Machine Spec Refine2 RunG Order Complex.
 Open Scope Z_scope.
 Theorem veqb_sym  :
   forall a b, veqb a b = veqb b a.
@@ -28,6 +28,12 @@ Theorem kinds_differ a b :
   veqb a b = true -> kclass a = kclass b.
 Proof. exact (Eq.kinds_differ a b). Qed.
 Print Assumptions kinds_differ.
+
+(* numbers are equal across integer / real exactly when numerically equal: ㄴ on finite reals is equality of the exact values (value * 2^1074 as integers) *)
+Theorem eq_is_value_equality a b :
+  finite_real a -> finite_real b -> (num_eq a b = true <-> sval a = sval b).
+Proof. exact (Order.eq_is_value_equality a b). Qed.
+Print Assumptions eq_is_value_equality.
 
 Theorem int_eq_exact x y :
   num_eq (VInt x) (VInt y) = true <-> x = y.
